@@ -26,5 +26,6 @@ Record config := {
   c_slave_catch_up_timeout : Z;
   c_manager_switchover : bool;
   c_manager_election_delay : Z;
-  c_repl_mon : bool
+  c_repl_mon : bool;
+  c_master_first_adjust : bool
 }.
